@@ -27,7 +27,7 @@ TECHNIQUE = "model-based (stateful) property testing with Hypothesis: generated 
 LEVEL_TEXT = "Generated edit histories with an alignment invariant after every call and a round-trip oracle; not a proof."
 LEVEL_NOTE = "Pure log edits after a simulation; trusts the dump of all logs."
 
-CFG = gen.Cfg(onesided=4, facilities=True, max_tasks=6, max_time=[30], abs_max=12, chain_components=True,
+CFG = gen.Cfg(onesided=4, servable=3, facilities=True, max_tasks=6, max_time=[30], abs_max=12, chain_components=True,
               work_pool=[0.0, 0.5, 1.0, 1.0, 2.0, 3.0])
 CFG_N = CFG.copy(nested="assembly")
 
